@@ -12,4 +12,5 @@ INVARIANT InvAbut
 INVARIANT InvShadowIsDecl
 INVARIANT InvTrunksSuffice
 INVARIANT InvTrunksFull
+INVARIANT LemmaTrunksValid
 CHECK_DEADLOCK FALSE
